@@ -41,6 +41,12 @@ T1: Dict[str, dict] = {
         'total_first_arg': ['latin1', 'latin-1', 'iso-8859-1'],
         'why': 'bytes.decode without errors= on external data (latin1 is total)',
     },
+    'lunr.lunr': {
+        'raises': ['ZeroDivisionError'],
+        'needs_nonempty_kw': 'documents',
+        'why': 'lunr.py computes average field lengths by dividing through the number of documents: an empty corpus (every object hidden) '
+               'raises ZeroDivisionError inside Builder.build()',
+    },
     'astor.to_source': {
         'raises': ['ValueError'],
         'why': 'an integer literal with more digits than sys.int_max_str_digits (4300, CPython >= 3.11; a hex literal has no such limit when it is '
